@@ -17,6 +17,8 @@ for _k in _KINDS:
     _sem_min['decisions_%s_true' % _k] = 500
     _sem_min['decisions_%s_false' % _k] = 500
 for _t in _NUMTYPES: _sem_min['numtype_' + _t] = 1000
+for _k in _KINDS: _sem_min['restores_into_used_object_' + _k] = 500
+_sem_min['used_object_decisions'] = 300000
 for _o in range(6): _sem_min['numop_%d' % _o] = 1000
 for _o in range(1, 7): _sem_min['maskop_%d' % _o] = 200
 for _o in range(28): _sem_min['strop_%02d' % _o] = 100
@@ -48,7 +50,7 @@ SPEC = dict(
                  'hostile nesting stops at 2000 levels (deeper is the parser-recursion finding F6 of C02/C07); regex-bomb patterns (F10) are not generated here',
                  'g++ 12 ASan/UBSan/LSan and valgrind memcheck report what they claim to report; CPU budget per hostile case 20 CPU-seconds'],
     legs=[
-        Leg('regress', 'h_filter', 'asan', opts={'mode': 'regress'}, quick=1, thorough=1, workers=1, leaks=True, min_cases=9),
+        Leg('regress', 'h_filter', 'asan', opts={'mode': 'regress'}, quick=1, thorough=1, workers=1, leaks=True, min_cases=10),
         Leg('semantics', 'h_filter', 'asan', opts={'mode': 'semantics'}, quick=100000 * _S, thorough=6000000, workers=16, leaks=True),
         Leg('hostile', 'h_filter', 'asan', opts={'mode': 'hostile'}, quick=50000 * _S, thorough=3000000, workers=16, leaks=True, cpu_budget=20.0),
         Leg('memcheck', 'h_filter', 'plain', opts={'mode': 'semantics'}, quick=2000 * _S, thorough=120000, workers=16, valgrind=True),
